@@ -238,6 +238,9 @@ func runC20(c *h.Ctx, idx int, events bool) {
 	real, _ := filepath.EvalSymlinks(dir)
 	tree := genTree(r, events)
 	sibling, siblingDir := "", ""
+	// whether `dir/**` also names dir itself (zero further segments) is answered differently by glob dialects and
+	// not by the statement: that one path is left out of the comparison
+	ambiguous := ""
 	if !events && (r.Chance(35) || idx%9 == 4) {
 		// (selection cases only: with a directory AND its files selected one event is legitimately seen twice)
 		// a file whose name extends the name of a directory next to it (docs.yaml beside docs/)
@@ -246,6 +249,12 @@ func runC20(c *h.Ctx, idx int, events bool) {
 				siblingDir = d
 				sibling = d + []string{".yaml", "-old.txt", "x.md"}[r.Intn(3)]
 				tree.files = append(tree.files, sibling)
+				if r.Bool() && !contains(tree.dirs, d+"2") {
+					// and a directory whose name extends it, with a file of its own
+					tree.dirs = append(tree.dirs, d+"2")
+					tree.files = append(tree.files, d+"2/b.txt")
+					sort.Strings(tree.dirs)
+				}
 				break
 			}
 		}
@@ -268,6 +277,13 @@ func runC20(c *h.Ctx, idx int, events bool) {
 		} else {
 			inc = append(inc, siblingDir, sibling)
 		}
+		if r.Bool() {
+			// everything below the directory is excluded: that says nothing about names that merely begin like it
+			exc = append(exc, siblingDir+"/**")
+			inc = append(inc, "*/b.txt")
+			ambiguous = siblingDir
+			c.Count("exclude_everything_below_a_directory_cases", 1)
+		}
 	}
 	if !events && idx < 100000 && len(tree.dirs) > 0 && (r.Chance(30) || idx%8 == 5) {
 		// everything is included and a directory (not what is below it) is excluded: excluding a directory says nothing
@@ -276,7 +292,7 @@ func runC20(c *h.Ctx, idx int, events bool) {
 		inc = append(inc, []string{"**/*", "**"}[r.Intn(2)])
 		exc = append(exc, []string{d, "*/" + d[strings.LastIndexByte(d, '/')+1:], "???", "*"}[r.Intn(4)])
 	}
-	if idx >= 100000 {
+	if idx >= 100000 && !events {
 		// many patterns: every file by its own name, and two wildcards on top
 		inc, exc = nil, nil
 		for _, f := range tree.files {
@@ -315,6 +331,10 @@ func runC20(c *h.Ctx, idx int, events bool) {
 	mask := r.Intn(32)
 	if idx < 32 && events {
 		mask = idx // every subset of the five event types once
+	}
+	moveBack := events && idx >= 200000
+	if moveBack {
+		mask |= 2 // writes are subscribed: the history ends with writes to a file that was moved away and back
 	}
 	for i, e := range eventNames {
 		if mask&(1<<uint(i)) != 0 {
@@ -482,6 +502,19 @@ func runC20(c *h.Ctx, idx int, events bool) {
 			got = append(got, p)
 		}
 	}
+	if ambiguous != "" {
+		drop := func(xs []string) []string {
+			var o []string
+			for _, x := range xs {
+				if x != ambiguous {
+					o = append(o, x)
+				}
+			}
+			return o
+		}
+		got, sel = drop(got), drop(sel)
+		delete(seen, ambiguous)
+	}
 	sort.Strings(got)
 	cas["registered_paths"] = got
 	c.Count("paths_registered", int64(len(got)))
@@ -560,6 +593,16 @@ func runC20(c *h.Ctx, idx int, events bool) {
 		nops = 6
 		c.Count("structured_histories", 1)
 	}
+	// a watched file is moved away, moved back after the watcher has dealt with that, and then written to: the path
+	// is an observed one again and the watcher is still running
+	moveTarget := ""
+	if moveBack && len(sel1) > 0 {
+		structured = false
+		nops = 4
+		moveTarget = sel1[r.Intn(len(sel1))]
+		c.Count("moved_away_and_back_histories", 1)
+	}
+	renamed := map[string]bool{}
 	for k := 0; k < nops; k++ {
 		var cand []string
 		for _, f := range pool {
@@ -567,8 +610,11 @@ func runC20(c *h.Ctx, idx int, events bool) {
 				cand = append(cand, f)
 			}
 		}
-		if len(cand) == 0 {
+		if len(cand) == 0 && moveTarget == "" {
 			break
+		}
+		if len(cand) == 0 {
+			cand = []string{moveTarget}
 		}
 		// prefer watched files two times out of three
 		var target string
@@ -596,6 +642,16 @@ func runC20(c *h.Ctx, idx int, events bool) {
 				op.Kind = loudOp
 			}
 		}
+		if moveTarget != "" {
+			op = c20op{Kind: []string{"rename", "rename-back", "append", "append"}[k], Path: moveTarget}
+		} else if !structured && r.Chance(50) {
+			for _, f := range pool {
+				if renamed[f] {
+					op = c20op{Kind: "rename-back", Path: f}
+					break
+				}
+			}
+		}
 		target = op.Path
 		before := len(runLines())
 		refMu.Lock()
@@ -617,6 +673,15 @@ func runC20(c *h.Ctx, idx int, events bool) {
 		case "rename":
 			os.Rename(full, full+".renamed")
 			dead[target] = true
+			renamed[target] = true
+		case "rename-back":
+			os.Rename(full+".renamed", full)
+			dead[target] = false
+			renamed[target] = false
+		}
+		opEvent := op.Kind
+		if opEvent == "rename-back" {
+			opEvent = "rename"
 		}
 		if slowCtx && k == 0 && len(watched) >= 2 && (op.Kind == "append" || op.Kind == "chmod") {
 			// a second event on another file while the run for the first one is still in the context's
@@ -651,7 +716,7 @@ func runC20(c *h.Ctx, idx int, events bool) {
 				continue
 			}
 			rel, _ := filepath.Rel(real, ev.Name)
-			if (op.Kind == "remove" || op.Kind == "rename") && name != op.Kind {
+			if (opEvent == "remove" || opEvent == "rename") && name != opEvent {
 				// the attribute change that accompanies an unlink/rename is delivered or dropped depending on
 				// whether the file still exists when the watcher gets to it: not determined
 				for _, tag := range []string{"RUN", "RUN2"} {
@@ -777,8 +842,8 @@ func runC20(c *h.Ctx, idx int, events bool) {
 }
 
 func c20(c *h.Ctx) {
-	c.Rule = "CLI `taskctl watch` under strace in a generated tree (<=3 levels, <=12 files incl. dot-files): selection = 1..3 include and 0..2 exclude patterns from the glob grammar (literal segments, *, ?, ** as a whole segment); the set of paths in inotify_add_watch calls must equal the set selected by the checker's own matcher. Events: every subset of the five event types (32) x histories of 3..6 operations (append, truncate-write, chmod, remove, rename) on watched, excluded and unrelated files, paced to the watcher's one-event-per-second loop; an independent fsnotify watcher on the expected path set is the reference observer; multiplicity-tolerant oracle (1..#reference events runs for a subscribed type, 0 for unsubscribed / unobserved). non-trivial = distinct (tree, patterns, events) cases"
-	c.Assumptions = []string{"events whose fsnotify op has several bits set, events for children of an observed directory (event workloads select files only) and anything on a path after it was removed/renamed are not determined", "the watcher serves one event per second (fixed sleep), so histories are paced; 'keeps serving' is decided for the length of the generated history", "strace reports the syscalls of the real binary"}
+	c.Rule = "CLI `taskctl watch` under strace in a generated tree (<=3 levels, <=12 files incl. dot-files): selection = 1..3 include and 0..2 exclude patterns from the glob grammar (literal segments, *, ?, ** as a whole segment); the set of paths in inotify_add_watch calls must equal the set selected by the checker's own matcher. Events: every subset of the five event types (32) x histories of 3..6 operations (append, truncate-write, chmod, remove, rename, rename back to the selected name) on watched, excluded and unrelated files, paced to the watcher's one-event-per-second loop; an independent fsnotify watcher on the expected path set is the reference observer; multiplicity-tolerant oracle (1..#reference events runs for a subscribed type, 0 for unsubscribed / unobserved). non-trivial = distinct (tree, patterns, events) cases"
+	c.Assumptions = []string{"events whose fsnotify op has several bits set, events for children of an observed directory (event workloads select files only) and anything on a path after it was removed, or renamed away and not yet back, are not determined", "the watcher serves one event per second (fixed sleep), so histories are paced; 'keeps serving' is decided for the length of the generated history", "strace reports the syscalls of the real binary"}
 	if _, err := exec.LookPath("strace"); err != nil {
 		c.Inconclusive("strace not available")
 		return
@@ -795,6 +860,9 @@ func c20(c *h.Ctx) {
 	}
 	for i := 0; i < nsel; i++ {
 		jobs = append(jobs, job{i, false})
+	}
+	for i := 0; i < c.N(8, 60); i++ {
+		jobs = append(jobs, job{200000 + i, true})
 	}
 	// selection cases with a dozen include patterns each (one per file, plus wildcards): every one of them counts
 	for i := 0; i < c.N(40, 400); i++ {
